@@ -14,6 +14,7 @@ func main() {
 	commands["service"] = cmdService
 	commands["race"] = cmdRace
 	commands["ctxio"] = cmdCtxio
+	commands["client"] = cmdClient
 	if len(os.Args) < 2 {
 		fmt.Fprintln(os.Stderr, "usage: vdriver <command> [flags]")
 		os.Exit(2)
